@@ -125,7 +125,7 @@ Inductive fclass :=
   | FErrCount | FErrDebit | FErrCredit.   (* ErrFlattenChanged... *)
 
 Definition zero_ctl : Offsets.control := Offsets.mkctl 0 0 0 0 0 0.
-Definition zera_fctl : Offsets.fctl := Offsets.mkfctl 0 0 0 0 0 0.
+Definition zero_fctl : Offsets.fctl := Offsets.mkfctl 0 0 0 0 0 0.
 
 Definition a_fctl (c : Offsets.fctl) : Arith.fctl :=
   Arith.mkfctl (Offsets.fc_batches c) (Offsets.fc_count c) (Offsets.fc_hash c) (Offsets.fc_debit c) (Offsets.fc_credit c).
@@ -247,7 +247,7 @@ Definition file_ctl_ok (f : FileCreateAll.afile) : bool :=
 Definition finish (inf : fin) (all : list batch) : fclass * FileCreateAll.afile :=
   let s := map sort_entries (sort_by num_ltb all) in
   let (ss, ibs) := add_all s in
-  let f0 := FileCreateAll.mkaf (i_hdr_ok inf) (FileCreateAll.mkfo false false false) ss ibs zera_fctl zera_fctl in
+  let f0 := FileCreateAll.mkaf (i_hdr_ok inf) (FileCreateAll.mkfo false false false) ss ibs zero_fctl zero_fctl in
   match FileCreateAll.file_create_all TT f0 with
   | (false, f) => (FErrCreate, f)
   | (true, f) =>
